@@ -9,6 +9,35 @@ import Irismod.Proofs.HtlcInv
 namespace Irismod.Proofs.Htlc
 open Irismod Irismod.Sdk Irismod.Htlc Irismod.Spec.C03 Irismod.Spec.C04
 
+/-! ### the pay-once ledger relation between two states -/
+
+/-- every balance moved from `s` to `s'` by exactly the change of the contracts' ledger amounts -/
+def LedgerRel (s s' : State) : Prop :=
+  ∀ a d, Bank.balOf s'.bank a d + outSum s' a d + inSum s a d
+       = Bank.balOf s.bank a d + outSum s a d + inSum s' a d
+
+theorem LedgerRel.refl (s : State) : LedgerRel s s := fun _ _ => rfl
+
+theorem LedgerRel.trans {s1 s2 s3 : State} (h12 : LedgerRel s1 s2) (h23 : LedgerRel s2 s3) : LedgerRel s1 s3 := by
+  intro a d; have := h12 a d; have := h23 a d; omega
+
+/-- `LedgerRel` when neither the contract table nor the bank changed -/
+theorem LedgerRel.same {s s' : State} (hh : s'.htlcs = s.htlcs) (hb : s'.bank = s.bank) : LedgerRel s s' := by
+  intro a d; unfold outSum inSum; rw [hh, hb]
+
+/-- `LedgerRel` after one entry changed -/
+theorem ledgerRel_update {s s' : State} {id : Id} {c' : Contract} (hh : s'.htlcs = AMap.set s.htlcs id c')
+    (hb : ∀ a d, Bank.balOf s'.bank a d + ledgerOut a d c' + ((AMap.get? s.htlcs id).map (ledgerIn a d)).getD 0
+               = Bank.balOf s.bank a d + ((AMap.get? s.htlcs id).map (ledgerOut a d)).getD 0 + ledgerIn a d c') :
+    LedgerRel s s' := by
+  intro a d
+  have h1 : outSum s' a d + ((AMap.get? s.htlcs id).map (ledgerOut a d)).getD 0 = outSum s a d + ledgerOut a d c' := by
+    unfold outSum; rw [hh]; exact sumBy_set _ _ _ _
+  have h2 : inSum s' a d + ((AMap.get? s.htlcs id).map (ledgerIn a d)).getD 0 = inSum s a d + ledgerIn a d c' := by
+    unfold inSum; rw [hh]; exact sumBy_set _ _ _ _
+  have := hb a d
+  omega
+
 /-- what one refund of a queued contract does -/
 structure RefundEff (s : State) (h : Nat) (id : Id) (c : Contract) (s1 : State) : Prop where
   get : AMap.get? s.htlcs id = some c
@@ -18,6 +47,7 @@ structure RefundEff (s : State) (h : Nat) (id : Id) (c : Contract) (s1 : State) 
   htlcs : s1.htlcs = AMap.set s.htlcs id (refunded c s.height)
   bank : s1.bank = payRefund s.bank c
   esc : ∀ d, Bank.balOf s1.bank escrow d + escrowAmt d c = Bank.balOf s.bank escrow d
+  ledger : LedgerRel s s1
   queue : s1.queue = s.queue
   height : s1.height = s.height
   time : s1.time = s.time
@@ -50,7 +80,7 @@ theorem refundOne_due {s : State} {h : Nat} {id : Id} (hs : Inv s) (hm : (h, id)
       simpa [escrowAmt, escrowed, hopen, ht] using this
     obtain ⟨b, hb⟩ := sendCoins_succeeds s.bank escrow c.sender c.amount hle
     refine ⟨c, markRefunded { s with bank := b } id c, ?_⟩
-    refine { get := hget, isOpen := hopen, exp := hexp, run := ?_, htlcs := rfl, bank := ?_, esc := ?_, queue := rfl,
+    refine { get := hget, isOpen := hopen, exp := hexp, run := ?_, htlcs := rfl, bank := ?_, esc := ?_, ledger := ?_, queue := rfl,
              height := rfl, time := rfl, params := rfl, prev := rfl, sup := ?_, inv := ?_ }
     · simp [refundOne, hget, ht, refundPlain, hb]
     · simp [payRefund, ht, markRefunded]; exact sendCoins_eq hb
@@ -60,6 +90,12 @@ theorem refundOne_due {s : State} {h : Nat} {id : Id} (hs : Inv s) (hm : (h, id)
       simp only [hne, if_false, if_true] at this
       simp [escrowAmt, escrowed, hopen, ht, markRefunded]
       omega
+    · apply ledgerRel_update (id := id) (c' := refunded c s.height) rfl
+      intro a d
+      have := sendCoins_ok hb a d
+      show Bank.balOf b a d + _ + _ = _
+      by_cases h1 : a = escrow <;> by_cases h2 : a = c.sender <;>
+        simp [hget, ledgerOut, ledgerIn, funded, paysTo, refunded, hopen, ht, h1, h2] at this ⊢ <;> omega
     · intro d; simp [supOf, markRefunded]
     · refine ⟨?_, ?_, ?_, ?_⟩
       · exact wf_update hwf (id := id) (c' := refunded c s.height) rfl
@@ -91,12 +127,15 @@ theorem refundOne_due {s : State} {h : Nat} {id : Id} (hs : Inv s) (hm : (h, id)
         simp [dirAmt, ht, hopen, hdir, hamt, coinAmt] at h2
         unfold sumDir at h1; omega
       refine ⟨c, markRefunded { s with supplies := AMap.set s.supplies d0 { sup with incoming := sup.incoming - n } } id c, ?_⟩
-      refine { get := hget, isOpen := hopen, exp := hexp, run := ?_, htlcs := rfl, bank := ?_, esc := ?_, queue := rfl,
+      refine { get := hget, isOpen := hopen, exp := hexp, run := ?_, htlcs := rfl, bank := ?_, esc := ?_, ledger := ?_, queue := rfl,
                height := rfl, time := rfl, params := rfl, prev := rfl, sup := ?_, inv := ?_ }
       · have : ¬ (sup.incoming < n) := by omega
         simp [refundOne, hget, ht, hdir, hamt, refundIncoming, hsup, this]
       · simp [payRefund, ht, hdir, markRefunded]
       · intro d; simp [escrowAmt, escrowed, hopen, ht, hdir, markRefunded]
+      · apply ledgerRel_update (id := id) (c' := refunded c s.height) rfl
+        intro a d
+        simp [hget, ledgerOut, ledgerIn, funded, paysTo, refunded, hopen, ht, hdir, markRefunded]
       · intro d
         simp only [supOf, markRefunded, getS?_set]
         by_cases e : d0 = d
@@ -134,7 +173,7 @@ theorem refundOne_due {s : State} {h : Nat} {id : Id} (hs : Inv s) (hm : (h, id)
         simpa [escrowAmt, escrowed, hopen, ht, hdir] using this
       obtain ⟨b, hb⟩ := sendCoins_succeeds s.bank escrow c.sender c.amount hle
       refine ⟨c, markRefunded { s with bank := b, supplies := AMap.set s.supplies d0 { sup with outgoing := sup.outgoing - n } } id c, ?_⟩
-      refine { get := hget, isOpen := hopen, exp := hexp, run := ?_, htlcs := rfl, bank := ?_, esc := ?_, queue := rfl,
+      refine { get := hget, isOpen := hopen, exp := hexp, run := ?_, htlcs := rfl, bank := ?_, esc := ?_, ledger := ?_, queue := rfl,
                height := rfl, time := rfl, params := rfl, prev := rfl, sup := ?_, inv := ?_ }
       · have : ¬ (sup.outgoing < n) := by omega
         simp [refundOne, hget, ht, hdir, hamt, refundOutgoing, hsup, this]
@@ -146,6 +185,12 @@ theorem refundOne_due {s : State} {h : Nat} {id : Id} (hs : Inv s) (hm : (h, id)
         simp only [hne, if_false, if_true] at this
         simp [escrowAmt, escrowed, hopen, ht, hdir, markRefunded]
         omega
+      · apply ledgerRel_update (id := id) (c' := refunded c s.height) rfl
+        intro a d
+        have := sendCoins_ok hb a d
+        show Bank.balOf b a d + _ + _ = _
+        by_cases h1 : a = escrow <;> by_cases h2 : a = c.sender <;>
+          simp [hget, ledgerOut, ledgerIn, funded, paysTo, refunded, hopen, ht, hdir, h1, h2] at this ⊢ <;> omega
       · intro d
         simp only [supOf, markRefunded, getS?_set]
         by_cases e : d0 = d
@@ -228,6 +273,7 @@ structure DueEff (s : State) (h : Nat) (ids : List Id) (s' : State) : Prop where
   others : ∀ id, id ∉ ids → AMap.get? s'.htlcs id = AMap.get? s.htlcs id
   bank : s'.bank = refundAll s.htlcs s.bank ids
   exact : EscrowExact s → EscrowExact s'
+  ledger : LedgerRel s s'
   height : s'.height = s.height
   time : s'.time = s.time
   params : s'.params = s.params
@@ -242,7 +288,7 @@ theorem processDue_ok (ids : List Id) {s : State} {h : Nat} (hs : Inv s) (hnd : 
   induction ids generalizing s with
   | nil =>
     refine ⟨s, { run := rfl, inv := hs, queue := fun x => by simp, refunded := fun id hid => by simp at hid,
-                 others := fun _ _ => rfl, bank := rfl, exact := fun hx => hx, height := rfl, time := rfl, params := rfl, prev := rfl,
+                 others := fun _ _ => rfl, bank := rfl, exact := fun hx => hx, ledger := LedgerRel.refl _, height := rfl, time := rfl, params := rfl, prev := rfl,
                  sup := fun d => ⟨rfl, Nat.le_refl _, rfl, rfl⟩ }⟩
   | cons id r ih =>
     have hnd' := List.nodup_cons.mp hnd
@@ -263,6 +309,7 @@ theorem processDue_ok (ids : List Id) {s : State} {h : Nat} (hs : Inv s) (hnd : 
       rw [e.htlcs, get?_set]; simp [Ne.symm hx]
     refine ⟨s', { run := ?_, inv := e'.inv, queue := ?_, refunded := ?_, others := ?_, bank := ?_,
                   exact := fun hx => e'.exact (e.exact hx),
+                  ledger := (e.ledger.trans (LedgerRel.same rfl rfl)).trans e'.ledger,
                   height := by rw [e'.height]; exact e.height, time := by rw [e'.time]; exact e.time,
                   params := by rw [e'.params]; exact e.params, prev := by rw [e'.prev]; exact e.prev,
                   sup := ?_ }⟩
@@ -427,6 +474,7 @@ structure BlockEff (s : State) (h t : Nat) (s' : State) : Prop where
   others : ∀ id, (h, id) ∉ s.queue → AMap.get? s'.htlcs id = AMap.get? s.htlcs id
   bank : s'.bank = refundAll s.htlcs s.bank (dueIds s.queue h)
   exact : EscrowExact s → EscrowExact s'
+  ledger : LedgerRel s s'
   height : s'.height = h
   time : s'.time = t
   params : s'.params = s.params
@@ -444,7 +492,7 @@ theorem beginBlock_ok {s : State} (hs : Inv s) (h t : Nat) : ∃ s', BlockEff s 
   obtain ⟨s1, e⟩ := processDue_ok (dueIds s.queue h) (inv_ctx hs h t) hnd hin
   refine ⟨updateLimits s1,
     { run := ?_, inv := inv_updateLimits e.inv, queue := ?_, refunded := ?_, others := ?_,
-      bank := ?_, exact := ?_, height := ?_, time := ?_, params := ?_, sup := ?_ }⟩
+      bank := ?_, exact := ?_, ledger := ?_, height := ?_, time := ?_, params := ?_, sup := ?_ }⟩
   · simp only [stepBeginBlock, e.run]
   · intro x
     have hq : (updateLimits s1).queue = s1.queue := by unfold updateLimits; split <;> rfl
@@ -473,6 +521,10 @@ theorem beginBlock_ok {s : State} (hs : Inv s) (h t : Nat) : ∃ s', BlockEff s 
     have h0 := this d
     unfold openEscrow strandedSum at *
     rw [hb, hh]; exact h0
+  · have hb : (updateLimits s1).bank = s1.bank := by unfold updateLimits; split <;> rfl
+    have hh : (updateLimits s1).htlcs = s1.htlcs := by unfold updateLimits; split <;> rfl
+    exact ((LedgerRel.same (s := s) (s' := { s with height := h, time := t }) rfl rfl).trans e.ledger).trans
+      (LedgerRel.same hh hb)
   · have hb : (updateLimits s1).height = s1.height := by unfold updateLimits; split <;> rfl
     rw [hb]; exact e.height
   · have hb : (updateLimits s1).time = s1.time := by unfold updateLimits; split <;> rfl
